@@ -7,6 +7,7 @@ import (
 	"strings"
 	"testing"
 	. "verifharness/hist"
+	"verifharness/specdec"
 
 	"github.com/google/reftable"
 	"pgregory.net/rapid"
@@ -73,6 +74,12 @@ func DrawStackTables(t *rapid.T, maxTables int, hash int, exact bool, hashPoolMa
 			}
 			spec.Refs = append(spec.Refs, r)
 		}
+		noisy := rapid.IntRange(0, 4).Draw(t, "noisyLogs") == 2
+		if noisy {
+			// one noise record per block: keep the blocks (and the drawn noise) small
+			spec.Cfg.BlockSize = uint32(rapid.SampledFrom([]int{256, 320, 400}).Draw(t, "noisyBlock"))
+			cfg = spec.Cfg
+		}
 		for _, n := range pool {
 			if rapid.IntRange(0, 2).Draw(t, "logInTable") != 0 {
 				continue
@@ -80,6 +87,14 @@ func DrawStackTables(t *rapid.T, maxTables int, hash int, exact bool, hashPoolMa
 			ne := rapid.IntRange(1, 3).Draw(t, "entries")
 			for j := 0; j < ne; j++ {
 				l := gen.Log{Name: Str(n), Idx: uint64(rapid.IntRange(0, 12).Draw(t, "lidx"))}
+				if noisy && len(spec.Refs) > 0 {
+					// incompressible records that fill their block to the last few bytes: deflated
+					// log blocks longer than the block size (the reader's read-more path)
+					if nl, ok := gen.DrawFillingLog(t, n, l.Idx, hs, cfg.EffBlockSize(), exact, rapid.IntRange(0, 14).Draw(t, "fillSlack")); ok {
+						spec.Logs = append(spec.Logs, nl)
+						continue
+					}
+				}
 				if rapid.IntRange(0, 3).Draw(t, "ldel") == 0 {
 					l.Del = true
 				} else {
@@ -126,6 +141,8 @@ type BuiltStack struct {
 	Dir     string
 	HashID  reftable.HashID
 	Skipped int // empty tables (not part of the stack)
+	// LongLogStreams counts log blocks whose deflated form is longer than the block size
+	LongLogStreams int
 }
 
 // BuildTables writes every table; empty ones are left out (a stack never
@@ -145,6 +162,13 @@ func BuildTables(tabs []gen.TableSpec) (*BuiltStack, bool, error) {
 			return nil, false, fmt.Errorf("table %d: %v", i, err)
 		}
 		bs.Data = append(bs.Data, data)
+		if len(spec.Logs) > 0 {
+			for _, b := range specdec.Decode(data, spec.Cfg.HashSize(), !spec.Cfg.Unaligned).Blocks {
+				if b.Type == 'g' && b.Occupied > uint64(spec.Cfg.EffBlockSize()) {
+					bs.LongLogStreams++
+				}
+			}
+		}
 		bs.Names = append(bs.Names, fmt.Sprintf("0x%012x-0x%012x-%08x.ref", spec.Min, spec.Max, i))
 		bs.Models = append(bs.Models, model.Table{Min: spec.Min, Max: spec.Max, Refs: spec.Refs, Logs: NormLogs(spec.Logs, spec.Cfg)})
 		bs.HashID = spec.Cfg.HashID()
@@ -197,6 +221,7 @@ func propC03(c c03Case, o *Obs) error {
 	if len(bs.Data) == 0 {
 		return nil
 	}
+	o.ClassIf(bs.LongLogStreams > 0, "log-stream-longer-than-block")
 	rawRefs := model.OverlayRefs(bs.Models, false)
 	rawLogs := model.OverlayLogs(bs.Models, false)
 	cookedRefs := model.OverlayRefs(bs.Models, true)
